@@ -81,7 +81,14 @@ fn alpha_main(cfg: &Cfg) -> Vec<Op> {
     v.push(c(lfs(3)).kind(Kind::FeedDrop));
     v.push(Op::resize(1, 1).kind(Kind::ResizeDrop));
     v.push(Op::resize(4, 3).kind(Kind::ResizeDrop));
+    v.extend(window_ops());
     v
+}
+
+/// in-band window manipulation: the geometry is what the API was told, not what the
+/// application asks for (the library has no public way to enable XTWINOPS)
+fn window_ops() -> Vec<Op> {
+    ["\x1b[8;3;5t", "\x1b[8;1;1t", "\x1b[8;;7t", "\x1b[8;9t", "\x1b[4;20;30t"].iter().map(|s| Op::raw(s)).collect()
 }
 
 fn alpha_main_quick(cfg: &Cfg) -> Vec<Op> {
@@ -89,6 +96,7 @@ fn alpha_main_quick(cfg: &Cfg) -> Vec<Op> {
     v.push(t("bcd").kind(Kind::FeedChars));
     v.push(c(lfs(3)).kind(Kind::FeedDrop));
     v.push(Op::resize(2, 1).kind(Kind::ResizeDrop));
+    v.extend(window_ops().into_iter().take(3));
     v
 }
 
@@ -134,12 +142,66 @@ macro_rules! parts {
     }};
 }
 
+/// "resize to any size": geometries at and beyond the 16-bit boundary, by resize() and by
+/// the builder, from a screen with content; all invariants after every call.
+fn extreme_sizes(ctx: &Ctx, rep: &mut Report) {
+    use super::common::geometry_broken;
+    let sizes: &[(usize, usize)] = match ctx.tier {
+        Tier::Quick => &[(65535, 1), (65536, 1), (70000, 2), (1, 65535), (1, 65536), (2, 70000), (300, 300)],
+        Tier::Thorough => &[(65535, 1), (65536, 1), (65537, 2), (70000, 2), (131072, 1), (1000000, 1), (1, 65535), (1, 65536), (2, 65537), (2, 70000), (1, 131072), (1, 1000000), (300, 300), (1000, 1000)],
+    };
+    let mut n = 0u64;
+    let mut bad: Option<(String, String)> = None;
+    'outer: for &(c, r) in sizes {
+        for via_builder in [false, true] {
+            for limit in [None, Some(0)] {
+                let what = format!("{} {}x{} (limit {:?})", if via_builder { "builder" } else { "resize to" }, c, r, limit);
+                let res = crate::engine::guarded(|| {
+                    let mut vt = if via_builder { build_vt(c, r, limit) } else { build_vt(3, 2, limit) };
+                    let _ = vt.feed_str("ab\r\ncdefg");
+                    if !via_builder {
+                        let _ = vt.resize(c, r);
+                    }
+                    if let Some(why) = geometry_broken(&vt, (c, r)) {
+                        return Some(why);
+                    }
+                    let _ = vt.feed_str("\x1b[99999;99999Hxy\x1b[H\x1bM");
+                    if let Some(why) = geometry_broken(&vt, (c, r)) {
+                        return Some(format!("after CUP to the far corner and a print: {}", why));
+                    }
+                    let _ = vt.resize(2, 2);
+                    geometry_broken(&vt, (2, 2)).map(|w| format!("after shrinking back to 2x2: {}", w))
+                });
+                n += 1;
+                match res {
+                    Ok(None) => {}
+                    Ok(Some(why)) => {
+                        bad = Some((what, why));
+                        break 'outer;
+                    }
+                    Err(p) => {
+                        bad = Some((what, format!("panic: {}", p)));
+                        break 'outer;
+                    }
+                }
+            }
+        }
+    }
+    if let Some((what, why)) = bad {
+        emit_violation(ctx, rep, "C02", serde_json::json!({"part":"extreme-sizes","case":what,"oracle":"geometry","observed":why}));
+    }
+    rep.evaluations += n * 3;
+    rep.parts.push(serde_json::json!({"part":"extreme-sizes","sizes":sizes.len(),"cases":n}));
+    println!("part extreme-sizes: {} cases", n);
+}
+
 pub fn run(ctx: &Ctx) -> Report {
     let mut rep = Report::new();
     let (main, deep) = parts!(ctx.tier);
     run_part(ctx, &mut rep, &main);
     run_part(ctx, &mut rep, &deep);
-    rep.rule = "BFS over op histories from power-on, dedup on the Debug fingerprint of the whole Vt; every transition is one public call (feed_str with drained/dropped Changes, feed per char, resize) after which all C02 invariants are evaluated; distinct = distinct implementation states".into();
+    extreme_sizes(ctx, &mut rep);
+    rep.rule = "BFS over op histories from power-on, dedup on the Debug fingerprint of the whole Vt; every transition is one public call (feed_str with drained/dropped Changes, feed per char, resize) after which all C02 invariants are evaluated; distinct = distinct implementation states; extreme-sizes: geometries at and beyond the 16-bit boundary through resize() and the builder, invariants after every call".into();
     rep.assumptions = vec![
         "screens limited to the configured tiny sizes and resize targets".into(),
         "wrap-pending origin is judged with an over-approximation of 'the call printed something' (any printable char in the input)".into(),
@@ -148,6 +210,12 @@ pub fn run(ctx: &Ctx) -> Report {
 }
 
 pub fn replay(ctx: &Ctx, v: &Value) -> bool {
+    if v["part"] == "extreme-sizes" {
+        let mut rep = Report::new();
+        let c2 = Ctx { id: ctx.id.clone(), tier: Tier::Thorough, seed: 0, start: ctx.start, known: ctx.known.clone(), replay_dir: ctx.replay_dir.clone() };
+        extreme_sizes(&c2, &mut rep);
+        return rep.violations > 0;
+    }
     let tier = if v["tier"] == "thorough" { Tier::Thorough } else { Tier::Quick };
     let (main, deep) = parts!(tier);
     match v["part"].as_str().unwrap_or("") {
